@@ -22,4 +22,5 @@ let table : (string * (z list list list -> z list list)) list = [
   ("udp_model", e_udp_model);
   ("c17_replay", e_c17_replay);
   ("net_model", e_net_model);
+  ("c12_replay", e_c12_replay);
 ]
